@@ -553,6 +553,7 @@ func runFoSchedule(t *testing.T, cfg FoCfg, bi int, b []foStepJ, seed int64) (ou
 
 		if len(r.drift) > 0 {
 			r.drain()
+			r.s.checkHanded()
 		}
 
 		// Quiescence: nothing parked, every Get returned.
@@ -842,6 +843,7 @@ func runFoWalk(t *testing.T, cfg FoCfg, wi int, seed int64, maxFaults, maxFails,
 		}
 
 		r.drain()
+		r.s.checkHanded()
 		synctest.Wait()
 
 		if cfg.StatOn {
@@ -1144,6 +1146,7 @@ func TestFoFree(t *testing.T) {
 
 		s.rec(Event{Ev: "metric", C: "build", N: stat.Total(cache.MetricBuild, foName)})
 		s.rec(Event{Ev: "metric", C: "failed", N: stat.Total(cache.MetricFailed, foName)})
+		s.checkHanded()
 		s.rec(Event{Ev: "quiesce", N: fo.KeyLocks()})
 
 		// follow-up without waiting for TTLs: both caches emptied
